@@ -644,9 +644,9 @@ func (p *c04Pool) GetReader(i int64) (io.Reader, error) {
 
 const c04K16 = 16384
 
-var c04SweepSizes = []int{0, 1, bs64 - 1, bs64, bs64 + 1, 2*bs64 - 1, 2 * bs64, 2*bs64 + 1,
-	c04K16 - 1, c04K16, c04K16 + 1, 2*c04K16 - 1, 2 * c04K16, 2*c04K16 + 1, 3*c04K16 - 1, 3 * c04K16, 3*c04K16 + 1,
-	5*c04K16 - 1, 5 * c04K16, 5*c04K16 + 1, 7*c04K16 - 1, 7*c04K16 + 1, 9*c04K16 - 1, 9 * c04K16, 9*c04K16 + 1, 3*bs64 - 1, 3 * bs64, 3*bs64 + 1}
+var c04SweepSizes = []int{0, bs64 + 1, c04K16 - 1, 1, 2*bs64 - 1, c04K16, bs64 - 1, 2 * bs64, c04K16 + 1, bs64, 2*bs64 + 1, 2*c04K16 - 1,
+	3*bs64 - 1, 2 * c04K16, 2*c04K16 + 1, 3 * bs64, 3*c04K16 - 1, 3 * c04K16, 3*bs64 + 1, 3*c04K16 + 1, 5*c04K16 - 1,
+	9*c04K16 - 1, 5 * c04K16, 5*c04K16 + 1, 9 * c04K16, 7*c04K16 - 1, 7*c04K16 + 1, 9*c04K16 + 1}
 
 func c04Content(r *lib.Rng, size int, structured bool) []byte {
 	if structured {
@@ -666,19 +666,16 @@ func c04Content(r *lib.Rng, size int, structured bool) []byte {
 
 // c04GenBuild returns a build, its class and whether it is small and structured enough for the
 // "sig" correspondence group.
-func c04GenBuild(r *lib.Rng, i int, thorough bool) (*lib.Build, string, bool) {
+func c04GenBuild(r *lib.Rng, i int, thorough bool, off int) (*lib.Build, string, bool) {
 	b := &lib.Build{}
 	put := func(p string, d []byte) { b.Put(lib.Entry{Path: p, Kind: "file", Data: d}) }
 	switch i % 10 {
 	case 0, 1: // size sweep: one to four files with sizes on and around the block and pipe-slice multiples
-		nf := r.Range(1, 4)
-		tot := 0
-		for k := 0; k < nf; k++ {
-			s := c04SweepSizes[(i/10*7+k*5+r.Intn(3))%len(c04SweepSizes)]
-			if tot+s > 7*bs64 {
-				s = []int{0, 1, bs64 - 1}[r.Intn(3)]
-			}
-			tot += s
+		// three consecutive sizes of the sweep list per build: a quick run (12 sweep builds) goes
+		// through the whole list, whatever the seed
+		sweepIdx := (i/10)*2 + i%10
+		for k := 0; k < 3; k++ {
+			s := c04SweepSizes[(3*sweepIdx+k+off)%len(c04SweepSizes)]
 			put(fmt.Sprintf("%sf%d.bin", []string{"", "d/", "d/e/"}[r.Intn(3)], k), c04Content(r, s, true))
 		}
 		return b, "build/sweep", true
@@ -967,7 +964,7 @@ func c04Builds(c *Ctx) error {
 	thorough := c.Tier == "thorough"
 	for i := 0; i < n; i++ {
 		cr := r.Fork()
-		b, class, small := c04GenBuild(cr, i, thorough)
+		b, class, small := c04GenBuild(cr, i, thorough, int(c.Seed%1000))
 		if i < len(c04Corpus) {
 			b, class, small = c04Corpus[i](cr), fmt.Sprintf("corpus/%d", i), true
 		}
